@@ -200,10 +200,13 @@ theorem qn_some (o : FOps) (x : Bits) (v : Int) (h : Fl.toI64 x = some v) :
     have : decide (-9223372036854775808 ≤ v.tdiv 210 * 2 ∧ v.tdiv 210 * 2 ≤ 9223372036854775807) = true := by
       simp only [decide_eq_true_eq]; omega
     simp [this]
+  -- (the commuted product too, so that a harmless `2 * (x / 210)` in the source keeps this proof)
+  have hm' : Cxx.I64.mul 2 (v.tdiv 210) = some (v.tdiv 210 * 2) := by
+    rw [← hm]; unfold Cxx.I64.mul; rw [Int.mul_comm]
   refine ⟨v.tdiv 210 * 2, ?_, ?_⟩
   · unfold Gen.TrackUtils.waveform_quantisation_number
     have ht : o.cxx.toI64 x = some v := h
-    simp [ht, hd, hm]
+    simp [ht, hd, hm, hm']
   · unfold Cxx.inI64 Cxx.i64Min Cxx.i64Max
     simp only [decide_eq_true_eq]; omega
 
@@ -224,7 +227,7 @@ theorem ovwExtents_ok (o : FOps) (n : UInt64) (r : Bits) : ∃ e, ovwExtents o n
   · have hq0 : q ≠ 0 := by
       intro h; apply hz; simp [h]
     have hu := u64OfInt_ne_zero q hq0 hin
-    simp [hz, liftUb, Cxx.U64.div, hu]
+    simp [hz, liftUb, Cxx.U64.div, Cxx.U64.mod, hu]
 
 theorem hiresExtents_ok (o : FOps) (n : UInt64) (r : Bits) : ∃ e, hiresExtents o n r = .ok e := by
   obtain ⟨v, hv⟩ := extentsRate_toI64 r
@@ -237,7 +240,7 @@ theorem hiresExtents_ok (o : FOps) (n : UInt64) (r : Bits) : ∃ e, hiresExtents
   · have hq0 : q ≠ 0 := by
       intro h; apply hz; simp [h]
     have hu := u64OfInt_ne_zero q hq0 hin
-    simp [hz, liftUb, Cxx.U64.div, hu]
+    simp [hz, liftUb, Cxx.U64.div, Cxx.U64.mod, hu]
 
 /-! ### resampling stays inside the waveform -/
 
